@@ -102,6 +102,11 @@ func drawMerkleOps(t *sim.Tape) []merkleOp {
 		case 0:
 			op.kind = "sector-root"
 			op.short = pick(t, rhp4.SectorSize, 64, 128, 64*3, 64*64, 64*1000, rhp4.SectorSize/2, 64*17)
+			if t.Chance(1, 2) {
+				// any whole number of leaves, not only the round ones: the streaming
+				// root hashes leaves in groups and has to get every remainder right
+				op.short = 64 * pick(t, t.Range(1, 40), t.Range(41, 300), 1000+t.Range(1, 40), rhp4.LeavesPerSector-t.Range(1, 20))
+			}
 		case 1:
 			op.kind = "read-range"
 			op.cacheLog = pick(t, 0, 0, 6, 1, 4, 10, 15)
@@ -315,6 +320,15 @@ func runMerkle(s *Session, ops []merkleOp) {
 					if !s.anyFault() {
 						bad("reader-root-error", "streaming root of %d bytes failed: %v", op.short, err)
 					}
+					return
+				}
+				if got.Len() < op.short && s.anyFault() {
+					// the stream ended early on a leaf boundary: the root of a stream is the
+					// root of what it held
+					if bytes.HasPrefix(payload[i], got.Bytes()) && got.Len()%64 == 0 && got.Len() > 0 && gotRoot != refRootOfData(got.Bytes()) {
+						bad("reader-root", "streaming root of a stream that ended after %d bytes = %v, plain Merkle tree = %v", got.Len(), gotRoot, refRootOfData(got.Bytes()))
+					}
+					e.inc("merkle.stream-ended-on-leaf-boundary")
 					return
 				}
 				if !decide(fmt.Sprintf("streaming root of %d bytes", op.short), gotRoot == want) {
@@ -646,6 +660,9 @@ func runMerkle(s *Session, ops []merkleOp) {
 				}
 				if rhp2.VerifyDiffProof(actions, uint64(op.n), th, lh, oldRoot, flipHash([]types.Hash256{newRoot}, cs[4])[0], appendRoots) {
 					bad("diff-proof-unsound", "diff proof accepted with a corrupted new root: %s", desc)
+				}
+				if op.n > 0 && rhp2.VerifyDiffProof(actions, uint64(op.n), th, lh, flipHash([]types.Hash256{oldRoot}, cs[1])[0], newRoot, appendRoots) {
+					bad("diff-proof-unsound", "diff proof accepted against a different old root: %s", desc)
 				}
 				if len(appendRoots) > 0 && !trimmedAppend && rhp2.VerifyDiffProof(actions, uint64(op.n), th, lh, oldRoot, newRoot, flipHash(appendRoots, cs[5])) {
 					bad("diff-proof-unsound", "diff proof accepted with a corrupted appended root: %s", desc)
